@@ -1153,13 +1153,50 @@ def gen_global_data(rng, name):
     return s
 
 
+CONST_EDGE = ['0', '1', '2', '-1', '-2', '127', '128', '255', '256', '32767', '32768', '65535', '65536', '2147483647', '(-2147483647-1)',
+              '2147483648', '4294967295', '4294967296', '9223372036854775807', '(-9223372036854775807-1)', '(-9223372036854775807)',
+              '9223372036854775808u', '18446744073709551615u', '0x100000000', '0xffffffff00000000', '1u', '1l', '-1l', '63', '64', '31', '32']
+
+def gen_const_fold(rng, tag):
+    """constant expressions the translation-time folder evaluates, with both operands on the boundaries of the integer types (the
+    host's own arithmetic must not trap: LONG_MIN / -1, LONG_MIN % -1, x / 0 are diagnostics or values, never a signal); every
+    undefined combination is left out (division by zero, shifts out of range, signed overflow other than the two division cases gcc
+    folds with a warning)"""
+    lines = []
+    for k in range(rng.randrange(4, 10)):
+        a, b = rng.choice(CONST_EDGE), rng.choice(CONST_EDGE)
+        op = rng.choice(['/', '%', '/', '%', '*', '+', '-', '<<', '>>', '&', '|', '^', '<', '<=', '==', '&&', '||', '?'])
+        if op in ('/', '%') and b.strip('()ul') in ('0',):
+            b = '-1'
+        if op in ('<<', '>>'):
+            b = rng.choice(['0', '1', '31', '32', '63'])
+            a = rng.choice(['1', '1u', '1l', '0xffl', '1ul'])
+        if op in ('*', '+', '-'):
+            a, b = f'(unsigned long){a}', f'(unsigned long){b}'      # unsigned: wraps, never overflows
+        e = f'({a} ? {b} : 7)' if op == '?' else f'({a} {op} {b})'
+        kind = rng.randrange(5)
+        if kind == 0:
+            lines.append(f'static long {tag}_c{k} = {e};')
+        elif kind == 1:
+            lines.append(f'enum {{ {tag}_e{k} = (int)(({e}) & 0xff) }};')
+        elif kind == 2:
+            lines.append(f'char {tag}_a{k}[((({e}) & 7) + 1)];')
+        elif kind == 3:
+            lines.append(f'#if {e}\nint {tag}_p{k};\n#endif'.replace('(unsigned long)', ''))
+        else:
+            lines.append(f'int {tag}_f{k}(long x) {{ switch (x) {{ case (({e}) & 0xff): return 1; }} return 0; }}')
+    return '\n'.join(lines)
+
+
 def gen_boundary(rng, n):
     """valid programs whose constants sit on the boundaries of the instruction encodings: expect exit 0 and `as` accepts"""
     out = []
     for i in range(n):
         parts = []
-        fam = i % 5
-        if fam == 0:
+        fam = i % 6
+        if fam == 5:
+            parts = [gen_const_fold(rng, f'cf{j}') for j in range(rng.randrange(1, 4))]
+        elif fam == 0:
             parts = [gen_switch_fn(rng, f'sw{j}') for j in range(rng.randrange(2, 6))]
         elif fam == 1:
             parts = [gen_imm_fn(rng, f'im{j}') for j in range(rng.randrange(1, 3))]
